@@ -54,14 +54,15 @@ func (b *a2bstr) UnmarshalJSON(d []byte) error {
 }
 
 type c17Case struct {
-	Comp    string `json:"comp"`     // add | remove | static | gstatic
-	Code    int    `json:"code"`     // slash middlewares: RedirectCode (0 = forward instead of redirect)
-	Path    a2bstr `json:"path"`     // request URL.Path (decoded)
-	RawPath a2bstr `json:"raw_path"` // request URL.RawPath ("" = none)
-	Query   a2bstr `json:"query"`    // request URL.RawQuery
-	Group   string `json:"group"`    // gstatic: group prefix
-	Prefix  string `json:"prefix"`   // static/gstatic: pathPrefix argument of Static
-	Tree    int    `json:"tree"`     // static/gstatic: which directory tree
+	Comp    string `json:"comp"`             // add | remove | static | gstatic
+	Method  string `json:"method,omitempty"` // request method ("" = GET)
+	Code    int    `json:"code"`             // slash middlewares: RedirectCode (0 = forward instead of redirect)
+	Path    a2bstr `json:"path"`             // request URL.Path (decoded)
+	RawPath a2bstr `json:"raw_path"`         // request URL.RawPath ("" = none)
+	Query   a2bstr `json:"query"`            // request URL.RawQuery
+	Group   string `json:"group"`            // gstatic: group prefix
+	Prefix  string `json:"prefix"`           // static/gstatic: pathPrefix argument of Static
+	Tree    int    `json:"tree"`             // static/gstatic: which directory tree
 }
 
 // ---------- the directory trees served by the static cases ----------
@@ -215,12 +216,16 @@ func c17Run(ci any) (res Result) {
 	path, raw, qs := string(c.Path), string(c.RawPath), string(c.Query)
 	e := echo.New()
 	e.HideBanner = true
-	req := httptest.NewRequest(http.MethodGet, "/", nil)
+	method := c.Method
+	if method == "" {
+		method = http.MethodGet
+	}
+	req := httptest.NewRequest(method, "/", nil)
 	req.URL.Path, req.URL.RawPath, req.URL.RawQuery = path, raw, qs
 	req.RequestURI = c17ReqURI
 	rec := httptest.NewRecorder()
 
-	tags := []string{"comp:" + c.Comp}
+	tags := []string{"comp:" + c.Comp, "method:" + method}
 	var ops string
 	nextRan, nextPath, nextURI := false, "", ""
 	routed, param := false, ""
@@ -263,7 +268,8 @@ func c17Run(ci any) (res Result) {
 		}
 		e.Use(func(next echo.HandlerFunc) echo.HandlerFunc {
 			return func(ctx echo.Context) error {
-				if ctx.Path() == route {
+				// (for a method the route is not registered for, Path() is the request path)
+				if ctx.Path() == route && ctx.Request().Method == http.MethodGet {
 					routed, param = true, ctx.Param("*")
 				}
 				return next(ctx)
@@ -301,6 +307,9 @@ func c17Run(ci any) (res Result) {
 	case status >= 300 && status < 400:
 		obs = wJoin("R", wInt(status), wStr(loc), wBool(pathAbs), wBool(!scheme && !authority))
 		tags = append(tags, "redirect", "redirect:"+c.Comp)
+		if method != http.MethodGet {
+			tags = append(tags, "redirect:non-GET")
+		}
 	case nextRan && status == http.StatusOK:
 		obs = wJoin("N", wStr(nextPath), wStr(nextURI))
 		tags = append(tags, "next")
@@ -357,8 +366,10 @@ func c17Run(ci any) (res Result) {
 			tags = append(tags, "ordinary-change")
 			switch {
 			case validCode:
-				if !isRedirect || status != c.Code || loc != want+q {
-					fail("ordinary path %q: expected %d with Location %q, got status %d Location %q", path, c.Code, want+q, status, loc)
+				// (the property fixes the target, not which 3xx code carries it; the configured
+				// code is part of the comparison with the model)
+				if !isRedirect || loc != want+q {
+					fail("ordinary path %q: expected a redirect (%d) with Location %q, got status %d Location %q", path, c.Code, want+q, status, loc)
 				}
 			case c.Code == 0:
 				if !nextRan || nextPath != want || nextURI != want+q {
@@ -432,6 +443,7 @@ var (
 		{"http:", "http:"}, {"javascript:alert(1)", "javascript:alert(1)"}, {"e", "e"}, {"", ""}}
 	c17Tails   = []c17Tok{{"", ""}, {"", ""}, {"/", "/"}, {"/..", "/.."}, {"/..", "/%2e%2e"}, {"/..", "/%2E."}, {"/.", "/."}, {"/x", "/x"}, {"//", "//"}, {"/", "%2f"}, {"?x", "%3fx"}, {"#f", "%23f"}, {"\t", "%09"}, {"%", "%25"}}
 	c17Queries = []string{"", "", "a=1", "next=//evil.com", "/\t/evil.com", "x=%2f%2f&y=2", "//evil.com", "?", "\\evil.com"}
+	c17Methods = []string{"HEAD", "POST", "POST", "PUT", "PATCH", "DELETE", "OPTIONS", "PROPFIND", "X-CUSTOM", "get"}
 	c17Codes   = []int{301, 301, 301, 302, 302, 307, 308, 308, 303, 300, 304, 305, 306, 0, 0, 0, 299, 309, 200, 1}
 )
 
@@ -508,6 +520,12 @@ func c17GenCase(r *rand.Rand) *c17Case {
 		c.Comp = "static"
 	default:
 		c.Comp = "gstatic"
+	}
+	// the property holds for every method (the model does not look at it): half of the
+	// requests are GET, the rest spread over the other methods, a body-carrying one included
+	// for every redirect code; the static routes only answer GET (405 otherwise)
+	if k := r.Intn(10); (c.Comp == "add" || c.Comp == "remove") && k < 5 || k < 2 {
+		c.Method = c17Methods[r.Intn(len(c17Methods))]
 	}
 	base := ""
 	wantDir := false
@@ -593,9 +611,49 @@ func c17Gen(r *rand.Rand, tier string) []any {
 	if tier == "thorough" {
 		n = 400000
 	}
-	out := make([]any, 0, n)
+	out := make([]any, 0, n+1300)
 	for i := 0; i < n; i++ {
 		out = append(out, c17GenCase(r))
+	}
+	// boundary lengths of the sanitiser, exhaustively: every string of length 1-4 over the
+	// significant alphabet {/, \, TAB, LF, e} that starts with / or \, through both slash
+	// middlewares, with and without query
+	const alpha = "/\\\t\ne"
+	var tails []string
+	for l := 0; l <= 3; l++ {
+		idx := make([]int, l)
+		for {
+			t := make([]byte, l)
+			for i, k := range idx {
+				t[i] = alpha[k]
+			}
+			tails = append(tails, string(t))
+			i := l - 1
+			for i >= 0 {
+				idx[i]++
+				if idx[i] < len(alpha) {
+					break
+				}
+				idx[i] = 0
+				i--
+			}
+			if i < 0 {
+				break
+			}
+		}
+	}
+	for _, first := range []string{"/", "\\"} {
+		for _, t := range tails {
+			for _, comp := range []string{"add", "remove"} {
+				for _, q := range []string{"", "a=1"} {
+					p := first + t
+					if comp == "remove" {
+						p += "/"
+					}
+					out = append(out, &c17Case{Comp: comp, Code: 301, Path: a2bstr(p), Query: a2bstr(q)})
+				}
+			}
+		}
 	}
 	return out
 }
@@ -603,6 +661,11 @@ func c17Gen(r *rand.Rand, tier string) []any {
 func c17Shrink(ci any) []any {
 	c := ci.(*c17Case)
 	var out []any
+	if c.Method != "" {
+		d := *c
+		d.Method = ""
+		out = append(out, &d)
+	}
 	if c.Query != "" {
 		d := *c
 		d.Query = ""
@@ -648,14 +711,37 @@ func c17Shrink(ci any) []any {
 	return out
 }
 
+// c17Mutate: neighbours of a case on which model and implementation disagree — the same
+// component, method, code and query with the classic hostile paths, so that the search for a
+// failing input of the property itself starts where one is most likely.
+func c17Mutate(r *rand.Rand, ci any) []any {
+	c := ci.(*c17Case)
+	var out []any
+	for _, p := range []string{"//example.com", "/\\example.com", "/\t/example.com", "/\\\n/example.com", "/\r\n//example.com", "///example.com/..", "//example.com/../.."} {
+		for _, q := range []string{string(c.Query), "", "next=1"} {
+			d := *c
+			d.Path, d.RawPath, d.Query = a2bstr(p), "", a2bstr(q)
+			if c.Comp == "remove" {
+				d.Path += "/"
+			}
+			if c.Comp == "static" || c.Comp == "gstatic" {
+				d.Group, d.Prefix = "", "/"
+			}
+			out = append(out, &d)
+		}
+	}
+	return out
+}
+
 func init() {
 	register(&Prop{
 		ID:     "C17",
-		Rule:   "request URLs built from tokens: first char `/` (rarely `\\` or none), optional static route prefix, a leading mix of 0-4 of {/, \\, %2f, %5c, TAB, CR, LF (raw or escaped), other C0 controls, space, DEL, NBSP}, a host-like or tree segment, `..` climbs (plain/escaped) back to a directory for the static components, tails, +/- query; URL.Path/RawPath as a real server would set them when the target parses, set directly otherwise; x {AddTrailingSlash, RemoveTrailingSlash (RedirectCode 300..308, 0 = forward, invalid codes), Echo.Static, Group.Static over two real directory trees}; one case in eight is a plain path for the 'ordinary paths' clause. non-trivial = a redirect was produced and the unsanitised target (path±/ + query) would be read by a browser as an authority (another host); distinct = distinct model op lines",
+		Rule:   "request URLs built from tokens: first char `/` (rarely `\\` or none), optional static route prefix, a leading mix of 0-4 of {/, \\, %2f, %5c, TAB, CR, LF (raw or escaped), other C0 controls, space, DEL, NBSP}, a host-like or tree segment, `..` climbs (plain/escaped) back to a directory for the static components, tails, +/- query; URL.Path/RawPath as a real server would set them when the target parses, set directly otherwise; x {AddTrailingSlash, RemoveTrailingSlash (RedirectCode 300..308, 0 = forward, invalid codes), Echo.Static, Group.Static over two real directory trees} x request method (GET for half of the slash cases and 4/5 of the static cases, else HEAD/POST/PUT/PATCH/DELETE/OPTIONS/PROPFIND/X-CUSTOM/lower-case get; the model ignores the method); one case in eight is a plain path for the 'ordinary paths' clause; plus, exhaustively, every string of length 1-4 over {/, \\, TAB, LF, e} starting with / or \\ through both slash middlewares with and without query (1248 cases). non-trivial = a redirect was produced and the unsanitised target (path±/ + query) would be read by a browser as an authority (another host); distinct = distinct model op lines",
 		New:    func() any { return &c17Case{} },
 		Gen:    c17Gen,
 		Run:    c17Run,
 		Shrink: c17Shrink,
+		Mutate: c17Mutate,
 		Known:  func(c any, res Result, modelObs string) string { return "" },
 		Extra: func(tier string, seed int64) map[string]any {
 			c17Cleanup()
